@@ -127,3 +127,73 @@ Section LibraryProofs.
     - rewrite <- Hsub. exact Heq.
   Qed.
 End LibraryProofs.
+
+(** completeness: a block of an old file is found at its own position *)
+Section LibraryComplete.
+  Variable H : Type.
+  Variable shash : list N -> H.
+  Variable heqb : H -> H -> bool.
+  Variable bs : N.
+  Hypothesis bs_pos : 0 < bs.
+  Hypothesis heqb_refl : forall x, heqb x x = true.
+
+  Lemma sign_blocks_has file : forall bl idx j blk,
+    nth_error bl j = Some blk ->
+    In (hash_block shash bs file (idx + N.of_nat j) blk) (sign_blocks shash bs file idx bl).
+  Proof.
+    induction bl as [|b r IH]; intros idx j blk Hn; [destruct j; discriminate|].
+    destruct j as [|j]; cbn [nth_error] in Hn.
+    - injection Hn as <-. cbn [sign_blocks]. left. f_equal. lia.
+    - cbn [sign_blocks]. right. replace (idx + N.of_nat (S j)) with (idx + 1 + N.of_nat j) by lia. apply IH. exact Hn.
+  Qed.
+
+  Lemma sign_all_has : forall olds base f old i blk,
+    nth_error olds f = Some old -> nth_error (file_blocks bs old) i = Some blk ->
+    In (hash_block shash bs (base + N.of_nat f) (N.of_nat i) blk) (sign_all shash bs base olds).
+  Proof.
+    induction olds as [|o r IH]; intros base f old i blk Hf Hb; [destruct f; discriminate|].
+    cbn [sign_all]. apply in_or_app. destruct f as [|f]; cbn [nth_error] in Hf.
+    - injection Hf as <-. left. unfold sign_file. replace (base + N.of_nat 0) with base by lia.
+      apply (sign_blocks_has base _ 0 i blk Hb).
+    - right. replace (base + N.of_nat (S f)) with (base + 1 + N.of_nat f) by lia. eapply IH; eassumption.
+  Qed.
+
+  Variable olds : list (list N).
+  Variable src : list N.
+  Variable pref : option N.
+  Variable f0 : N.
+  Hypothesis Hsrc : nth_error olds (N.to_nat f0) = Some src.
+
+  Theorem lookup_in_complete : forall k wlen,
+    0 < wlen -> wlen <= bs -> bs * k + wlen <= len src -> (wlen < bs -> bs * k + wlen = len src) ->
+    lookup_in heqb (sign_all shash bs 0 olds) pref (fun a l => shash (sub src a l))
+              (weak_of (sub src (bs * k) wlen)) (bs * k) wlen (if wlen <? bs then wlen else 0) <> None.
+  Proof.
+    intros k wlen Hw0 Hwbs Hin Hshort.
+    set (blk := sub src (bs * k) wlen).
+    assert (Hlen : len blk = wlen) by (apply sub_len; assumption).
+    (* blk is block k of src *)
+    assert (Hblk : nth_error (file_blocks bs src) (N.to_nat k) = Some blk).
+    { assert (Hk : (N.to_nat k * N.to_nat bs < length src)%nat) by (unfold len in Hin; nia).
+      pose proof (blocks_nth_inv (N.to_nat bs) ltac:(lia) _ _ Hk) as Hn.
+      assert (Hb : firstn (N.to_nat bs) (skipn (N.to_nat k * N.to_nat bs) src) = blk).
+      { unfold blk. destruct (N.eq_dec wlen bs) as [->|Hne].
+        - unfold sub. f_equal. f_equal. lia.
+        - transitivity (sub src (bs * k) bs); [unfold sub; f_equal; f_equal; lia|].
+          symmetry. apply sub_beyond; lia. }
+      rewrite Hb in Hn. unfold file_blocks. destruct (blocks (N.to_nat bs) src); [destruct (N.to_nat k); discriminate|exact Hn]. }
+    pose proof (sign_all_has olds 0 _ _ _ _ Hsrc Hblk) as He0.
+    set (e0 := hash_block shash bs (0 + N.of_nat (N.to_nat f0)) (N.of_nat (N.to_nat k)) blk) in He0.
+    unfold lookup_in.
+    assert (Hin0 : In e0 (hash_lookup (sign_all shash bs 0 olds) (weak_of blk))).
+    { unfold hash_lookup. apply filter_In. split; [exact He0|]. unfold e0. cbn [hash_block eweak]. apply N.eqb_refl. }
+    destruct (hash_lookup (sign_all shash bs 0 olds) (weak_of blk)) as [|h0 hr] eqn:Ehh; [contradiction|].
+    assert (Hok : (eshort e0 =? (if wlen <? bs then wlen else 0)) && heqb (estrong e0) (shash (sub src (bs * k) wlen)) = true).
+    { unfold e0. cbn [hash_block eshort estrong]. fold (len blk). rewrite Hlen, N.eqb_refl. fold blk. rewrite heqb_refl. reflexivity. }
+    unfold find_unique_hash. destruct (wlen =? 0) eqn:Ew; [apply N.eqb_eq in Ew; lia|].
+    match goal with |- context [match ?first with Some e => Some e | None => find ?ok (h0 :: hr) end] =>
+      destruct first as [e1|]; [discriminate|];
+      destruct (find ok (h0 :: hr)) as [e2|] eqn:Ef; [discriminate|] end.
+    exfalso. pose proof (find_none _ _ Ef e0 Hin0) as Hf. cbv beta in Hf. rewrite Hok in Hf. discriminate.
+  Qed.
+End LibraryComplete.
